@@ -1,5 +1,5 @@
 # configuration of ./check for property C20 (see props_config.py)
-CONFIG = {'gen': [],
+CONFIG = {'gen': ['ConstsC20'],
  'rule': 'cases = IPv4: every prefix length 0..32 (plus 33/64/255) x addresses at the subnet boundaries (network, last, one below, one '
          'above, last-network-bit and first-host-bit flipped, 0, 255.255.255.255) x three choices of subnet argument, CIDRMask grid, '
          'print/parse over boundary octets, malformed CIDR strings (specials + mutations), range triples at boundaries; IPv6: print/parse '
@@ -14,7 +14,11 @@ CONFIG = {'gen': [],
  'trusted': ['net/netip and Go regexp/strconv as independent oracles for the Lean spec ops'],
  'technique': 'Lean 4 proof (induction over digit lists / byte strings; bit-level lemmas by testBit extensionality; omega) about a hand '
               'model of the patched code; model tied to the Go code by differential correspondence; arithmetic spec oracle on the same '
-              'inputs, itself cross-checked against net/netip',
+              'inputs, itself cross-checked against net/netip; constants regenerated from the source on every run by a go/ast fact '
+              'extractor (Gen/ConstsC20: one-byte separators, part counts 2/4/8, ParseUint bases and widths, the /32 bound, shifts of '
+              'ToUInt32/ToUInt128, the 0xFFFFFFFF<<(32-n) mask, byte masks of ComputeMask, port bounds 0..65535, format strings, the '
+              'port-range and LM:NT regexp literals, the hash length 32) and proved equal to the ones the model uses by rfl/decide (18 '
+              'theorems consts_match_model_*)',
  'level_text': 'Proved in Lean for all inputs about a hand-written model of network/ip and ParseLMNTHashes (patched tree): '
                'ipv4_print_parse (all addresses x prefixes 0..32), ipv6_print_parse, port_print_parse and port_parse_padded (all port '
                'pairs, all pattern white space), mask_spec / subnet_spec (all addresses, all p <= 32: bit operations = division by '
@@ -22,7 +26,11 @@ CONFIG = {'gen': [],
                'panic (ipv4/ipv6/port/lmnt _total), lmnt_spec (full characterisation on every byte string), lmnt_trim_invariant (all '
                'Unicode white-space paddings, all strings), lmnt_case_invariant, lmnt_never_drops_valid, lmnt_nt_only. The model is tied '
                'to the code by running both on the same generated inputs on every run; the implementation is also compared with an '
-               'arithmetic oracle.',
+               'arithmetic oracle. Constants tie: 18 theorems consts_match_model_* restate the model functions with the numbers '
+               'regenerated from the current source (one-byte separators, part counts 2/4/8, ParseUint bases and widths, the /32 bound, '
+               'shifts of ToUInt32/ToUInt128, the 0xFFFFFFFF<<(32-n) mask, byte masks of ComputeMask, port bounds 0..65535, format '
+               'strings, the port-range and LM:NT regexp literals, the hash length 32) in place of their literals; a changed constant in '
+               'the source makes the theorem named after the function fail.',
  'level_note': 'Trusted: Lean kernel; axioms propext, Classical.choice, Quot.sound; the hand model (incl. its byte-level models of '
                'strings.TrimSpace, strconv.ParseUint, fmt %d/%x and the two regular expressions) is tied to the Go code only by '
                'differential testing (bounded). The theorems hold for the tree with fixes/C20-*.diff applied; on the unpatched tree the '
